@@ -107,6 +107,8 @@ def run(chk):
         "Not decided: the two-sided discarded-weight error bound (a theorem about singular values).")
     chk.assumptions = ["prefix truncation keeps the largest singular values iff the spectrum is globally sorted in descending order",
                        "select_basis sorts candidates by singular value (sorted(..., reverse=True)) before choosing"]
+    from . import tree_rules as TR
+    TR.must_update(chk, src)
     chk.rule("threshold-count", "threshold criterion = count of normalised singular values above the threshold (abstract run)", 1)
     from .mini_specs import threshold_count
     threshold_count(chk, src, "threshold-count")
